@@ -159,3 +159,32 @@ func (in *Interp) newTickerValue(fr *frame, ch *Chan) Value {
 	*p = v
 	return p
 }
+
+func init() {
+	// Duration accessors: exact on constants, otherwise an arbitrary value
+	// (over-approximation; avoids 64-bit division by 10^k in the solver).
+	durInt := func(div int64) intrinsic {
+		return func(in *Interp, fr *frame, args []Value) Value {
+			d := args[0].(*Term)
+			if d.op == OpConst {
+				return in.tt.BV(64, uint64(d.sval()/div))
+			}
+			return in.freshVar(64)
+		}
+	}
+	intrinsics["(time.Duration).Milliseconds"] = durInt(1_000_000)
+	intrinsics["(time.Duration).Microseconds"] = durInt(1_000)
+	intrinsics["(time.Duration).Nanoseconds"] = func(in *Interp, fr *frame, args []Value) Value { return args[0] }
+	durFloat := func(div float64) intrinsic {
+		return func(in *Interp, fr *frame, args []Value) Value {
+			d := args[0].(*Term)
+			if d.op == OpConst {
+				return in.fpConst(64, float64(d.sval())/div)
+			}
+			return in.freshVar(64)
+		}
+	}
+	intrinsics["(time.Duration).Seconds"] = durFloat(1e9)
+	intrinsics["(time.Duration).Minutes"] = durFloat(60e9)
+	intrinsics["(time.Duration).Hours"] = durFloat(3600e9)
+}
